@@ -73,6 +73,11 @@ ASSUMPTIONS = [
     'picture\'s own table is missing or empty. Boundary cubes of the two shifted-cube classes are redrawn as '
     'rectangles by their override (object/params replaced; colours and opacities still compared). Measured on '
     '/repo f731468, thorough box: no other deviation from the tables in either picture',
+    'deformation-independence: under every offered deformation each qubit / stabilizer description (object, '
+    'params, location, type, opacity and also colour) equals the one /code-data returns for the undeformed code at '
+    'the same index and picture. Rule taken from gui-config.json: its tables are keyed by (class, picture, '
+    'stabilizer type) only and stabilizer_type is a function of the coordinate, so nothing in a description may '
+    'depend on the Pauli content; measured on /repo (thorough box, both pictures): all descriptions identical',
     'geometry: every vertex of a polygon/triangle stabilizer, placed as gui/js/shapes.js places it (rotation by '
     'angle, orientation by normal, translation by location), lies inside the axis-aligned frame spanned by all '
     'qubit and stabilizer locations of the same answer, up to 1e-9. Measured on /repo e8dca0f over the whole '
@@ -671,6 +676,26 @@ def _eval_code_data(case):
                 if geo is not None:
                     bad = ('stabilizer', geo[0], ('geometry', geo[1]))
                     _bump(res, 'bad_entries')
+            if bad is None and case['deformation'] != 'None':
+                # a Clifford deformation relabels Paulis; it moves / reshapes / recolours nothing: the tables of
+                # gui-config.json are keyed by (class, picture, stabilizer type) and the type is a function of
+                # the coordinate alone, so the answer for the undeformed code prescribes every description
+                st0, data0 = _post(cl, '/code-data', dict(body, code_deformation_name='None'))
+                catch.take()
+                res['evals'] += 1
+                _bump(res, 'undeformed_reference_requests')
+                if st0 == 200 and len(data0['qubits']) == n and len(data0['stabilizers']) == m:
+                    for what, lst, ref in (('qubit', Q, data0['qubits']), ('stabilizer', S, data0['stabilizers'])):
+                        for i, (e, e0) in enumerate(zip(lst, ref)):
+                            _bump(res, 'descriptions_compared_with_undeformed')
+                            if e != e0:
+                                fld = next(k for k in sorted(set(e) | set(e0)) if e.get(k) != e0.get(k))
+                                bad = bad or (what, i, ('depends-on-deformation',
+                                                        '%s is %r under %s, %r on the undeformed code'
+                                                        % (fld, e.get(fld), case['deformation'], e0.get(fld))))
+                                _bump(res, 'bad_entries')
+                else:
+                    _bump(res, 'undeformed_reference_unavailable')
             if bad:
                 what, i, (rule, info) = bad
                 emit('entry-' + rule, {'first': '%s %d' % (what, i), 'info': info,
